@@ -141,7 +141,7 @@ impl Property for C20 {
         history_brief(case)
     }
     fn required_classes(&self, _tier: Tier) -> Vec<&'static str> {
-        vec!["discard_ge_2_blocks", "discard_with_shared_reference", "step_upgrade", "step_shared_tx"]
+        vec!["discard_ge_2_blocks", "discard_with_shared_reference", "step_upgrade", "step_shared_tx", "shared_tx_and_its_spender_in_one_block"]
     }
     fn run(&self, case: &History) -> Outcome {
         let mut out = Outcome::default();
@@ -156,6 +156,10 @@ impl Property for C20 {
                 return out;
             }
             step_classes(&w, &info, &mut out);
+            if w.shared_tx_spent_in_block > 0 {
+                out.class_n("shared_tx_and_its_spender_in_one_block", w.shared_tx_spent_in_block);
+                w.shared_tx_spent_in_block = 0;
+            }
             check_bookkeeping(&mut w, i, &mut out);
             // "no later step fails on a missing entry": exercise the readers of the caches
             super::c02::check_tip_agreement(&mut w, i, &mut out, &mut fee_tip);
